@@ -285,3 +285,102 @@ def h_check1(a: int, quiet: bool) -> bool:
     files = [("a.py", [M("f0", Fig(a), 3)])]
     code, lines = _run_check(files, quiet)
     return fin(_check_oracle(files, vals, quiet, code, lines), a > 60)
+
+
+# ----------------------------------------------------------------------------- replays through the public entry points on real files (no stubs)
+def _real_run(lengths_by_file, quiet):
+    """Write real Python files whose functions have the given lengths, run the real check_command and scan_path on them; returns (exit, lines, scan totals)."""
+    import contextlib
+    import io
+    import os
+    import shutil
+    import tempfile
+    from codelimit.common.Scanner import scan_path
+    d = tempfile.mkdtemp(prefix="verif-c02-")
+    old = os.getcwd()
+    try:
+        names = []
+        for fname, lens in lengths_by_file:
+            src = ""
+            for i, L in enumerate(lens):
+                src += f"def {fname[0]}{i}(a):\n" + "".join(f"    v{j} = {j}\n" for j in range(max(L - 1, 1))) + "\n\n"
+                names.append((fname, f"{fname[0]}{i}", max(L, 2)))
+            with open(os.path.join(d, fname), "w") as f:
+                f.write(src)
+        os.chdir(d)
+        buf = io.StringIO()
+        code = None
+        with contextlib.redirect_stdout(buf):
+            try:
+                chk.check_command([Path(f) for f, _ in lengths_by_file], quiet)
+            except typer.Exit as e:
+                code = e.exit_code
+        cb = scan_path(Path(d))
+        return code, [ln for ln in buf.getvalue().splitlines() if ln.strip()], cb, names
+    finally:
+        os.chdir(old)
+        shutil.rmtree(d, ignore_errors=True)
+
+
+def _real_verdict(lengths_by_file, quiet):
+    code, lines, cb, names = _real_run(lengths_by_file, quiet)
+    vals = [L for _f, _n, L in names]
+    problems = []
+    if code != (1 if any(v > 60 for v in vals) else 0):
+        problems.append(f"exit status {code} for lengths {vals}")
+    n_over = sum(1 for v in vals if v > 30)
+    listing = [ln for ln in lines if "files checked" not in ln]
+    if quiet and n_over == 0:
+        if lines:
+            problems.append("--quiet printed although nothing is over 30")
+    else:
+        if len(listing) != n_over:
+            problems.append(f"{len(listing)} functions listed, {n_over} are longer than 30: {listing}")
+        summ = [ln for ln in lines if "files checked" in ln]
+        if n_over and not any(f"{n_over} functions need" in ln for ln in summ):
+            problems.append(f"summary does not say {n_over}: {summ}")
+        for (fname, name, L) in names:
+            if L > 30 and not any(ln.startswith(fname + ":") and ln.rstrip().endswith(name) and f" {L} " in ln and (("✖" in ln) == (L > 60)) for ln in listing):
+                problems.append(f"{fname}:{name} (length {L}) not listed correctly")
+    tot = cb.totals.get("Python")
+    if tot is not None:
+        exp_h = sum(1 for v in vals if 30 < v <= 60)
+        exp_u = sum(1 for v in vals if v > 60)
+        if (tot.hard_to_maintain, tot.unmaintainable, tot.functions) != (exp_h, exp_u, len(vals)):
+            problems.append(f"scan totals hard/unmaintainable/functions = {(tot.hard_to_maintain, tot.unmaintainable, tot.functions)}, expected {(exp_h, exp_u, len(vals))}")
+        prof = [0, 0, 0, 0]
+        for v in vals:
+            prof[cat(v)] += v
+        if cb.tree["./"].profile == [0, 0, 0, 0]:
+            cb.aggregate()
+        if cb.tree["./"].profile != prof:
+            problems.append(f"root profile {cb.tree['./'].profile}, expected {prof}")
+    return problems
+
+
+def real_h_check(a, b, c, quiet):
+    if min(a, b, c) < 2:
+        return None
+    p = _real_verdict([("a.py", [a, b]), ("b.py", [c])], quiet)
+    return {"reproduced": True, "sig": "thresholds:check-or-scan-disagrees-with-the-statement", "detail": "; ".join(p)[:500]} if p else None
+
+
+def real_h_check1(a, quiet):
+    if a < 2:
+        return None
+    p = _real_verdict([("a.py", [a])], quiet)
+    return {"reproduced": True, "sig": "thresholds:check-or-scan-disagrees-with-the-statement", "detail": "; ".join(p)[:500]} if p else None
+
+
+def real_h_views(L):
+    if L < 2:
+        return None
+    p = _real_verdict([("a.py", [L])], False)
+    return {"reproduced": bool(p), "sig": "thresholds:check-or-scan-disagrees-with-the-statement", "detail": "; ".join(p)[:500]} if p else None
+
+
+def real_h_multi(a, b, c):
+    if min(a, b, c) < 2:
+        return None
+    p = _real_verdict([("a.py", [a, b]), ("b.py", [c])], False)
+    return {"reproduced": bool(p), "sig": "thresholds:check-or-scan-disagrees-with-the-statement", "detail": "; ".join(p)[:500]} if p else None
